@@ -12,7 +12,8 @@ import (
 //     (and searchable ones under another token);
 //  2. an integral float (came back as an int), a feature without tags (was dropped by the import), a literal
 //     polygon with 1e-7 degree vertices (was rounded to 1e-6 by "%f");
-//  3. FINDING yaml-null-string: a tag value "null" / "~" makes the exported file undecodable;
+//  3. a tag value, collection literal or relation role "null" / "~" — before fixes/C18-export-null-string.patch
+//     the exported file was undecodable (yaml.v2);
 //  4. FINDING import-intermediate-state: (a) a ring dragged east vertex by vertex — the import applies the final
 //     positions one at a time to the base ring and is rejected ("ordered clockwise"); (b) a ring re-routed
 //     away from a point which then loses its location — the point is imported before the ring;
@@ -69,7 +70,7 @@ func corpus(c *hx.Ctx) {
 
 	// 3
 	for _, s := range nullStrings {
-		c.Comment("finding yaml-null-string")
+		c.Comment("null strings")
 		k = newCase(c)
 		k.StandardBase(r, false)
 		k.AddTag(6, Tag{"note", sv(s)})
@@ -80,6 +81,8 @@ func corpus(c *hx.Ctx) {
 	k.StandardBase(r, false)
 	k.AddFeature(pointFeat(21, posOf(21, 0), Tag{"name", sv("null")}))
 	k.AddFeature(Feat{ID: 3028, Body: "r:21~" + hx16("null")})
+	k.AddFeature(Feat{ID: 4030, Body: "c:" + sv("null") + ">" + sv("~") + "," + idAtom(21) + ">" + sv("null")})
+	k.AddTag(1007, Tag{"#highway", sv("~")})
 	k.Finish()
 
 	// 4a
